@@ -439,6 +439,10 @@ func checkWorkspaceFor(c wsCase, only string) error {
 			if s == nil {
 				continue
 			}
+			if op.Op == "edit-payload" && *s.m.payload() == nil {
+				// a detached payload: whatever the caller attaches may be the very content that was signed
+				continue
+			}
 			edits++
 			s.pure = false
 			h := s.m.headers()
